@@ -37,6 +37,10 @@ KeySels == << EPipe(EPath(A), ENul("GET_KEY")), EPipe(EPipe(EPath(B), EPath(A)),
 DSels == << EIndex(0), EIndex(1), EIndex(-1), ETravArr(ESelf, ECollect(EUnion(ELit(IntV(0)), ELit(IntV(2))))), EPipe(ESplat, IsTwo), ETravArr(ESelf, ECollect(EUnion(ELit(IntV(1)), ELit(IntV(0))))) >>
 ExprSeq ==
      [i \in DOMAIN Sels |-> EDelete(Sels[i])]
+  \* selections that hit nodes of the context themselves (top-level nodes): ALL of them leave the results, and the rest of the selection is deleted too
+  \o << EDelete(ESelf), EDelete(EUnion(EPath(A), ESelf)), EDelete(EUnion(ESelf, EPath(A))), EPipe(ESplat, EDelete(IsTwo)), EPipe(ESplat, EDelete(EUnion(IsTwo, EIndex(0)))),
+        EPipe(EPipe(EPath(A), ESplat), EDelete(EUn("SELECT", ECmp(TRUE, FALSE, ESelf, ELit(IntV(0)))))), EPipe(EUnion(ELit(IntV(1)), EUnion(ELit(IntV(2)), ELit(IntV(0)))), EDelete(EUn("SELECT", ECmp(TRUE, FALSE, ESelf, ELit(IntV(0)))))),
+        EPipe(EPipe(EPath(A), ESplat), EDelete(ERecurse(FALSE))), ECollect(EPipe(EPipe(EPath(A), ESplat), EDelete(EUn("SELECT", EBin("EQUALS", ESelf, ELit(IntV(2))))))) >>
   \o [i \in DOMAIN KeySels |-> EDelete(KeySels[i])]
   \o [i \in DOMAIN KeySels |-> ECollect(EPipe(KeySels[i], ENul("IS_KEY")))]
   \o FlatMap(LAMBDA x : [j \in DOMAIN Small |-> EDelete(EUnion(x, Small[j]))], Small)                                   \* del(s1, s2) in both orders
